@@ -272,7 +272,8 @@ class Product:
                 r = ('F',)
             elif n in aut.terminal:
                 st = aut.terminal[n]
-                r = ('T', 'FAIL' if self.scn.is_fail(aut.name, st) else 'OK')
+                # FAIL terminals keep their message (distinct messages stay distinct nodes, so that reports are exact)
+                r = ('T', 'FAIL', str(st[1])[:200]) if self.scn.is_fail(aut.name, st) else ('T', 'OK')
             else:
                 onstack.add(n)
                 items = []
